@@ -102,6 +102,7 @@ class RmXmmReg(Constructor):
     reg_rm = Operand("reg_rm", XmmRegisterDouble, read=True)
     syntax = Syntax([reg_rm])
     patterns = {"mod": 3}
+    is_reg_target = True
 
     def set_user_patterns(self, tokens):
         # TODO: Improve this way of setting 'r':
@@ -118,6 +119,7 @@ class RmXmmRegSingle(Constructor):
     reg_rm = Operand("reg_rm", XmmRegisterSingle, read=True)
     syntax = Syntax([reg_rm])
     patterns = {"mod": 3}
+    is_reg_target = True
 
     def set_user_patterns(self, tokens):
         # TODO: Improve this way of setting 'r':
@@ -171,7 +173,7 @@ class Movsd(Sse2Instruction):
 class Movss2(Sse1Instruction):
     """Move scalar single-fp value"""
 
-    rm = Operand("rm", xmm_single_rm_modes)
+    rm = Operand("rm", xmm_single_rm_modes, write=True)
     r = Operand("r", XmmRegisterSingle, read=True)
     syntax = Syntax(["movss", " ", rm, ",", " ", r], priority=1)
     patterns = {"prefix": 0xF3, "opcode": 0x11}
@@ -180,7 +182,7 @@ class Movss2(Sse1Instruction):
 class Movsd2(Sse2Instruction):
     """Move scalar double-fp value"""
 
-    rm = Operand("rm", xmm_double_rm_modes)
+    rm = Operand("rm", xmm_double_rm_modes, write=True)
     r = Operand("r", XmmRegisterDouble, read=True)
     syntax = Syntax(["movsd", " ", rm, ",", " ", r], priority=1)
     patterns = {"prefix": 0xF2, "opcode": 0x11}
